@@ -118,7 +118,7 @@ fn run_state(scen: &Scenario, store: &Store, seen: &HashMap<Store, u32>, hooks: 
         }
     }
     let mut run = |act: &Act, idx: u32, is_l: bool, ps: &mut PerState| {
-        let out = step(store, &scen.cfg.chain, &act.sender, &act.funds, &act.msg);
+        let out = crate::scenario::step_act(store, &scen.cfg.chain, act);
         let tc = TransCtx::new(&st, act, &out);
         let nv = ps.sink.viols.len();
         on_trans(&tc, &mut ps.sink);
@@ -186,6 +186,15 @@ pub fn initial_store(scen: &Scenario) -> Result<Store, String> {
             let mut s = a.store;
             for (k, v) in &scen.seed {
                 s.0.insert(k.clone(), v.clone());
+            }
+            if let Some((ver, msg)) = &scen.pre_migrate {
+                // the seeded book belongs to an earlier contract version: upgrade it first
+                crate::mig::set_version(&mut s, ver);
+                let m = crate::chain::parse_migrate(&msg.to_string())?;
+                match crate::chain::do_migrate(&s, &scen.cfg.chain, &m) {
+                    Outcome::Accepted(a) => s = a.store,
+                    o => return Err(format!("SKIP: migration of the seeded book of scenario {} from version {ver} was not carried out: {}", scen.name, o.short())),
+                }
             }
             Ok(s)
         }
